@@ -12,6 +12,10 @@ Eval(c) ==
         D == [j \in 1..Len(c.tcols) |-> [q \in 1..c.nq |-> SqDist(c.qcols[q], c.tcols[j])]]
     IN [id |-> c.id, per |-> [t \in 1..NT(c) |-> [p |-> per[t].p, squared |-> per[t].squared, score |-> per[t].score, adm |-> SetToSeq(per[t].adm)]],
         monotone |-> Monotone(c.G, D),
+        \* rounding rule of the integeriser, where the scaled similarity v is exactly representable (c.V2 = 2 v, -1 elsewhere):
+        \* the integerised similarity is the NEAREST integer, an exact tie k + 1/2 goes UP:  x = floor(v + 1/2) = (2 v + 1) div 2
+        rounding |-> \A j \in DOMAIN c.G : \A q \in DOMAIN c.G[j] : c.V2[j][q] < 0 \/ c.G[j][q] = (c.V2[j][q] + 1) \div 2,
+        ties |-> Cardinality({ <<j, q>> \in (DOMAIN c.G) \X (1..c.nq) : c.V2[j][q] >= 0 /\ c.V2[j][q] % 2 = 1 }),
         selfok |-> (c.self = 0 \/ \E x \in per[c.self].adm : x[1] = 0 /\ x[2] = c.nq),
         pok |-> \A t \in 1..NT(c) : per[t].p[1] >= 0 /\ per[t].p[1] <= per[t].p[2]]
 Results == [i \in 1..Len(Cases) |-> Eval(Cases[i])]
